@@ -198,7 +198,8 @@ func checkStackOverflowAbort(c *core.Ctx) {
 				}
 				found = true
 				aborts, inLoop, unwinds := false, false, false
-				if branch != nil {
+				var scan func(n ast.Node, depth int)
+				scan = func(branch ast.Node, depth int) {
 					var stack []ast.Node
 					ast.Inspect(branch, func(y ast.Node) bool {
 						if y == nil {
@@ -219,9 +220,20 @@ func checkStackOverflowAbort(c *core.Ctx) {
 							if id, ok := call.Fun.(*ast.Ident); ok && strings.Contains(strings.ToLower(id.Name), "unwindstack") {
 								unwinds = true
 							}
+							// a helper of the same package called from the branch
+							if f := core.Callee(info, call); f != nil && depth < 2 {
+								core.AllFuncDecls(p, func(g *ast.FuncDecl) {
+									if info.Defs[g.Name] == types.Object(f) && g != fd {
+										scan(g.Body, depth+1)
+									}
+								})
+							}
 						}
 						return true
 					})
+				}
+				if branch != nil {
+					scan(branch, 0)
 				}
 				c.Check(aborts && inLoop && unwinds, "R20.10", "compiler: the exit path of a call that ended in stack overflow walks the stack and calls Abort", is.Pos(),
 					"the stack-overflow branch of the deferred function unwinds the stack and calls Abort in a loop",
